@@ -37,6 +37,11 @@ type c17Case struct {
 	// Objs: objects are enabled in LCDC and OAM holds objects that lie on the line (so the renderer reads object
 	// memory during mode 3 of that line); the statement does not depend on what the picture shows
 	Objs bool `json:"objs,omitempty"`
+	// Off (mode "poweron"): LCDC bit 7 is cleared at power-on, before the first machine cycle
+	Off bool `json:"off,omitempty"`
+	// Idle: machine cycles the CPU spins in work RAM after the program; OAM may not change in any of them that begins
+	// outside mode 2
+	Idle int `json:"idle,omitempty"`
 }
 
 // c17Pattern is the OAM image put there by DMA: every row distinct; with objs, object k lies on the given line.
@@ -141,8 +146,36 @@ func c17DMAOff(l *explore.Local, c c17Case) *explore.Fail {
 					// the LCD stays on for a further 0, 60 or 120 cycles (so that a line, and its mode 2, may begin while the
 					// transfer runs), is then switched off, and the transfer ends with the LCD off
 					s3p, s3o, s3i, s3t, s3c, s3m, s3a := *m.P, *m.OAM, *m.I, *m.T, *m.CPU, *m.Map, *m.A
-					for _, stay := range []int{0, 60, 120} {
+					for _, stay := range []int{-1, 0, 60, 120} {
 						*m.P, *m.OAM, *m.I, *m.T, *m.CPU, *m.Map, *m.A = s3p, s3o, s3i, s3t, s3c, s3m, s3a
+						if stay < 0 {
+							// the LCD stays on: the transfer runs to its end (its stores are DMA's), then for more than a line the CPU
+							// only executes NOPs in work RAM: whatever the pointer instruction armed while the transfer ran, no byte
+							// of OAM may change in a cycle that begins outside mode 2
+							for k := 0; k < 170; k++ {
+								m.Cycle()
+							}
+							ob := m.OAMBytes()
+							for k := 0; k < 130; k++ {
+								armed := m.Map.Read(0xff41)&3 == 2
+								before := *ob
+								m.Cycle()
+								if !armed && *ob != before {
+									for i := range before {
+										if ob[i] != before[i] {
+											f := explore.Failf("OAM altered in a machine cycle outside mode 2",
+												"line %d tick %d, pointer %04x, program % x with the LCD on: %d cycles after the transfer ended, while the CPU executes NOPs (STAT mode before the cycle not 2), OAM[%d] changed %02x -> %02x",
+												c.Line, tick, ptr, code, k+1, i, before[i], ob[i])
+											f.Case = c17Case{Mode: "dmaoff", Line: c.Line, From: c.From, To: c.To, Tick: tick, Prog: []int{oi}, Ptr: ptr}
+											return f
+										}
+									}
+								}
+							}
+							l.Trans(1)
+							l.Eval(1)
+							continue
+						}
 						for k := 0; k < stay; k++ {
 							m.Cycle()
 						}
@@ -188,23 +221,41 @@ func c17Check(l *explore.Local, _ struct{}, c c17Case) *explore.Fail {
 	if c.Mode == "dmaoff" {
 		return c17DMAOff(l, c)
 	}
+	if c.Mode == "haltinoam" {
+		return c17HaltInOAM(l, c)
+	}
 	m := machine.New(machine.ROMOnly(), machine.Opts{DebugLCD: c.Debug})
-	// fill OAM through a DMA transfer (no CPU/OAM-bug interaction): every row distinct
-	for i := 0; i < 160; i++ {
-		m.Map.Write(0xc100+uint16(i), c17Pattern(i, c.Line, c.Objs))
-	}
-	if c.Objs {
-		m.Map.Write(0xff40, 0x93)
-	}
-	m.Map.Write(0xff46, 0xc1)
-	for i := 0; i < 170; i++ {
-		m.Hardware()
-	}
-	// go to the requested line of the next frame
-	pos := 170
-	target := 17556 + c.Line*114 - 2 + c.From // power-on frame: first line is 2 cycles shorter
-	for ; pos < target; pos++ {
-		m.Hardware()
+	if c.Mode == "poweron" {
+		// no transfer was ever requested: the program runs c.From.. machine cycles after power-on, when nothing but
+		// its own stores may write object memory (a DMA source page, DF00-DF9F included, must not reach it)
+		for i := 0; i < 160; i++ {
+			m.Map.Write(0xdf00+uint16(i), uint8(i*5+0x31))
+			m.Map.Write(0xc100+uint16(i), uint8(i*3+0x17))
+		}
+		if c.Off {
+			m.Map.Write(0xff40, 0x11)
+		}
+		for i := 0; i < c.From; i++ {
+			m.Hardware()
+		}
+	} else {
+		// fill OAM through a DMA transfer (no CPU/OAM-bug interaction): every row distinct
+		for i := 0; i < 160; i++ {
+			m.Map.Write(0xc100+uint16(i), c17Pattern(i, c.Line, c.Objs))
+		}
+		if c.Objs {
+			m.Map.Write(0xff40, 0x93)
+		}
+		m.Map.Write(0xff46, 0xc1)
+		for i := 0; i < 170; i++ {
+			m.Hardware()
+		}
+		// go to the requested line of the next frame
+		pos := 170
+		target := 17556 + c.Line*114 - 2 + c.From // power-on frame: first line is 2 cycles shorter
+		for ; pos < target; pos++ {
+			m.Hardware()
+		}
 	}
 	var oam0 [160]uint8
 	lcdOn := func() bool { return m.Map.Read(0xff40)&0x80 != 0 }
@@ -264,6 +315,15 @@ func c17Check(l *explore.Local, _ struct{}, c c17Case) *explore.Fail {
 						m.Hardware()
 					}
 					m.Map.Write(0xff40, lcdc&0x7f)
+				case "offon":
+					// switched off and on again: the program starts c.OnFor cycles into the first line after the switch-on
+					m.Map.Write(0xff40, lcdc&0x7f)
+					m.Hardware()
+					m.Map.Write(0xff40, lcdc|0x80)
+					for i := 0; i < c.OnFor; i++ {
+						m.Hardware()
+					}
+				case "poweron":
 				case "on":
 					// every position of the line, mode 2 included: what an armed cycle does to OAM is the emulated bug's
 					// business (the end state is then not judged), but every cycle that begins outside mode 2 is
@@ -272,6 +332,9 @@ func c17Check(l *explore.Local, _ struct{}, c c17Case) *explore.Fail {
 				// the OAM image the reference starts from: what DMA put there (read back while no bug can be armed by the read itself matters not: reads go through PPU-side access)
 				for i := range oam0 {
 					oam0[i] = c17Pattern(i, c.Line, c.Objs)
+				}
+				if c.Mode == "poweron" {
+					oam0 = *m.OAMBytes() // what power-on left there
 				}
 				s2p, s2o, s2i, s2t, s2c, s2m, s2a := *m.P, *m.OAM, *m.I, *m.T, *m.CPU, *m.Map, *m.A
 				for _, ptr := range ptrs {
@@ -286,7 +349,7 @@ func c17Check(l *explore.Local, _ struct{}, c c17Case) *explore.Fail {
 							}
 							code = append(code, op...)
 						}
-						for i, b := range code {
+						for i, b := range append(append([]uint8(nil), code...), 0x18, 0xfe) { // then JR to itself
 							m.Map.Write(0xc000+uint16(i), b)
 						}
 						regs := cpu.VRegs{A: 0x5a, F: 0x00, B: uint8(ptr >> 8), C: uint8(ptr), D: uint8(ptr >> 8), E: uint8(ptr), H: uint8(ptr >> 8), L: uint8(ptr), SP: ptr, PC: 0xc000}
@@ -320,13 +383,32 @@ func c17Check(l *explore.Local, _ struct{}, c c17Case) *explore.Fail {
 											f := explore.Failf("OAM altered in a machine cycle outside mode 2",
 												"mode %s, line %d tick %d, pointer %04x, program % x: in cycle %d of an instruction (LCD on: %v, STAT mode before the cycle not 2) OAM[%d] changed %02x -> %02x; no store put that value there",
 												c.Mode, c.Line, tick, ptr, code, k+1, lcdOn(), i, before[i], ob[i])
-											f.Case = c17Case{Mode: c.Mode, Line: c.Line, From: c.From, To: c.To, Len: len(prog), Tick: tick, Prog: prog, Ptr: ptr, OnFor: c.OnFor, Pre: pre, Debug: c.Debug, Objs: c.Objs}
+											f.Case = c17Case{Mode: c.Mode, Line: c.Line, From: c.From, To: c.To, Len: len(prog), Tick: tick, Prog: prog, Ptr: ptr, OnFor: c.OnFor, Pre: pre, Debug: c.Debug, Objs: c.Objs, Off: c.Off, Idle: c.Idle}
 											return f
 										}
 									}
 								}
 							}
 							l.Trans(1)
+						}
+						for k := 0; k < c.Idle; k++ {
+							armed := lcdOn() && m.Map.Read(0xff41)&3 == 2
+							if armed {
+								judged = false
+							}
+							before := *ob
+							m.Cycle()
+							if !armed && *ob != before {
+								for i := range before {
+									if ob[i] != before[i] {
+										f := explore.Failf("OAM altered in a machine cycle outside mode 2",
+											"mode %s, line %d tick %d, pointer %04x, program % x: %d cycles after the program, while the CPU spins in work RAM (LCD on: %v, STAT mode before the cycle not 2), OAM[%d] changed %02x -> %02x",
+											c.Mode, c.Line, tick, ptr, code, k+1, lcdOn(), i, before[i], ob[i])
+										f.Case = c17Case{Mode: c.Mode, Line: c.Line, From: c.From, To: c.To, Len: len(prog), Tick: tick, Prog: prog, Ptr: ptr, OnFor: c.OnFor, Pre: pre, Debug: c.Debug, Objs: c.Objs, Off: c.Off, Idle: c.Idle}
+										return f
+									}
+								}
+							}
 						}
 						if lcdOn() && m.Map.Read(0xff41)&3 == 2 {
 							judged = false
@@ -348,12 +430,18 @@ func c17Check(l *explore.Local, _ struct{}, c c17Case) *explore.Fail {
 								if c.Mode == "offonoff" {
 									state = "LCD off (off, on, off again)"
 								}
+								if c.Mode == "offon" {
+									state = "LCD on outside mode 2 (after being switched off and on)"
+								}
+								if c.Mode == "poweron" {
+									state = fmt.Sprintf("no transfer requested since power-on (LCD off: %v)", c.Off)
+								}
 								if c.Mode == "offwrite" {
 									state = fmt.Sprintf("LCD off, after a write to %04x", c17PreWrites[pre-1][0])
 								}
 								f := explore.Failf("OAM altered without a CPU write or DMA: "+state,
 									"%s, line %d tick %d, pointer %04x, program % x: OAM[%d]=%02x, expected %02x", state, c.Line, tick, ptr, code, i, got, exp[i])
-								f.Case = c17Case{Mode: c.Mode, Line: c.Line, From: c.From, To: c.To, Len: len(prog), Tick: tick, Prog: prog, Ptr: ptr, OnFor: c.OnFor, Pre: pre, Debug: c.Debug, Objs: c.Objs}
+								f.Case = c17Case{Mode: c.Mode, Line: c.Line, From: c.From, To: c.To, Len: len(prog), Tick: tick, Prog: prog, Ptr: ptr, OnFor: c.OnFor, Pre: pre, Debug: c.Debug, Objs: c.Objs, Off: c.Off, Idle: c.Idle}
 								return f
 							}
 						}
@@ -363,6 +451,77 @@ func c17Check(l *explore.Local, _ struct{}, c c17Case) *explore.Fail {
 				restore()
 			}
 		}
+		m.Hardware()
+	}
+	return nil
+}
+
+// c17HaltInOAM: the guest executes HALT from object memory (FE90; the bytes after it are NOPs) with the LCD on and
+// sleeps until the v-blank request wakes it (with and without the master enable). A sleeping CPU drives no bus
+// cycles, so nothing it does can arm the mode-2 bug; whatever the mode-2 fetches before the HALT did is over within
+// the cycle they happen in. From the first cycle on, no byte of OAM may change in a cycle that begins outside mode 2.
+func c17HaltInOAM(l *explore.Local, c c17Case) *explore.Fail {
+	m := machine.New(machine.ROMOnly(), machine.Opts{})
+	for i := 0; i < 160; i++ {
+		b := c17Pattern(i, c.Line, false)
+		if i == 0x90 {
+			b = 0x76
+		} else if i > 0x90 {
+			b = 0x00
+		}
+		m.Map.Write(0xc100+uint16(i), b)
+	}
+	m.Map.Write(0xff46, 0xc1)
+	for i := 0; i < 170; i++ {
+		m.Hardware()
+	}
+	target := 17556 + c.Line*114 - 2 + c.From
+	for pos := 170; pos < target; pos++ {
+		m.Hardware()
+	}
+	ob := m.OAMBytes()
+	for tick := c.From; tick < c.To; tick++ {
+		sp, so, si, st, sc, sm, sa := *m.P, *m.OAM, *m.I, *m.T, *m.CPU, *m.Map, *m.A
+		for _, ime := range []bool{false, true} {
+			*m.P, *m.OAM, *m.I, *m.T, *m.CPU, *m.Map, *m.A = sp, so, si, st, sc, sm, sa
+			m.Map.Write(0xff0f, 0x00)
+			m.Map.Write(0xffff, 0x01)
+			m.CPU.VSet(cpu.VRegs{A: 0x5a, SP: 0xdff0, PC: 0xfe90})
+			if ime {
+				m.I.Enable()
+			} else {
+				m.I.Disable()
+			}
+			slept, woke := false, -1
+			for k := 0; k < 17556+300 && (woke < 0 || k < woke+10); k++ {
+				armed := m.Map.Read(0xff41)&3 == 2
+				before := *ob
+				m.Cycle()
+				l.Trans(1)
+				if h := m.CPU.VGet().Halted; h {
+					slept = true
+				} else if slept && woke < 0 {
+					woke = k
+				}
+				if !armed && *ob != before {
+					for i := range before {
+						if ob[i] != before[i] {
+							f := explore.Failf("OAM altered in a machine cycle outside mode 2",
+								"HALT executed at FE90 on line %d tick %d (IME=%v, IE=01): cycle %d (slept: %v, woken in cycle %d; STAT mode before the cycle not 2): OAM[%d] changed %02x -> %02x",
+								c.Line, tick, ime, k, slept, woke, i, before[i], ob[i])
+							f.Case = c17Case{Mode: "haltinoam", Line: c.Line, From: tick, To: tick + 1}
+							return f
+						}
+					}
+				}
+			}
+			if !slept || woke < 0 {
+				return explore.Failf("harness: the guest did not sleep in OAM and wake up", "line %d tick %d IME=%v: slept=%v woke=%d", c.Line, tick, ime, slept, woke)
+			}
+			l.Eval(1)
+		}
+		*m.P, *m.OAM, *m.I, *m.T, *m.CPU, *m.Map, *m.A = sp, so, si, st, sc, sm, sa
+		l.Outcome(uint64(sp.ReadSTAT()&3) | uint64(c.Line)<<8 | 0xe<<20)
 		m.Hardware()
 	}
 	return nil
@@ -388,7 +547,7 @@ func init() {
 		if c.Thorough() {
 			n = 2
 		}
-		explore.Product(c.R, "oam-integrity", explore.PartOpt{Bound: fmt.Sprintf("programs of length <= %d (one extra block of length %d on line 1)", n, n+1), Domain: "switch-off at every cycle of lines 0,1,143,144,153; off-on-off; LCD on with the program started at every position of the line (a byte of OAM may change in a machine cycle that begins outside mode 2 only to a value the program stores there; OAM is observed after every cycle without a bus access); the same with objects enabled and eight objects on the line (lines 1, 77, 143); switch-off at every cycle of lines 1 and 150 followed by one of 16 register writes (LY, STAT, LYC, LCDC with bit 7 clear, scroll, window, palettes, IF, IE); the LCD switched off at every cycle of lines 1 and 144 on a machine built with DebugLCD; DMA started + pointer instruction at every cycle of line 1 with the LCD on, then LCD off and NOPs until after the transfer"},
+		explore.Product(c.R, "oam-integrity", explore.PartOpt{Bound: fmt.Sprintf("programs of length <= %d (one extra block of length %d on line 1)", n, n+1), Domain: "switch-off at every cycle of lines 0,1,143,144,153; off-on-off; LCD on with the program started at every position of the line (a byte of OAM may change in a machine cycle that begins outside mode 2 only to a value the program stores there; OAM is observed after every cycle without a bus access); the same with objects enabled and eight objects on the line (lines 1, 77, 143); switch-off at every cycle of lines 1 and 150 followed by one of 16 register writes (LY, STAT, LYC, LCDC with bit 7 clear, scroll, window, palettes, IF, IE); the LCD switched off at every cycle of lines 1 and 144 on a machine built with DebugLCD; DMA started + pointer instruction at every cycle of line 1 with the LCD on, then LCD off and NOPs until after the transfer, or the LCD left on and no change allowed outside mode 2 after the transfer; LCD switched off and on with the program at every cycle 0-139 after the switch-on; from power-on (LCD on / switched off at once) with the program at every cycle 0-179 and 180 quiet cycles after it; HALT executed from FE90 at every cycle of lines 1 and 143 until v-blank wakes the CPU"},
 			func(yield func(c17Case) bool) {
 				for _, line := range []int{0, 1, 143, 144, 153} {
 					for from := 0; from < 114; from += 6 {
@@ -444,6 +603,37 @@ func init() {
 				for from := 0; from < 114; from += 2 {
 					if !yield(c17Case{Mode: "off", Line: 1, From: from, To: from + 2, Len: n + 1}) {
 						return
+					}
+				}
+				// switched off and on again: the program started at every cycle of the first line after the switch-on and
+				// into the second (the first line after a switch-on has its own mode schedule)
+				offAt := []int{3, 40, 100}
+				if c.Thorough() {
+					offAt = []int{0, 3, 10, 19, 20, 40, 62, 63, 100, 113}
+				}
+				for _, line := range []int{1, 144} {
+					for _, t := range offAt {
+						for onFor := 0; onFor < 140; onFor++ {
+							if !yield(c17Case{Mode: "offon", Line: line, From: t, To: t + 1, Len: 1, OnFor: onFor}) {
+								return
+							}
+						}
+					}
+				}
+				// from power-on, no transfer ever requested: the program at every cycle 0-179, then 180 quiet cycles
+				for _, off := range []bool{true, false} {
+					for from := 0; from < 180; from += 6 {
+						if !yield(c17Case{Mode: "poweron", From: from, To: from + 6, Len: 1, Off: off, Idle: 180}) {
+							return
+						}
+					}
+				}
+				// HALT executed from object memory at every cycle of a visible line and of the last one before v-blank
+				for _, line := range []int{1, 143} {
+					for from := 0; from < 114; from += 6 {
+						if !yield(c17Case{Mode: "haltinoam", Line: line, From: from, To: from + 6}) {
+							return
+						}
 					}
 				}
 			}, func() struct{} { return struct{}{} }, c17Check)
